@@ -42,7 +42,7 @@ class ViolationBudget(BaseException):
 
 
 IS_KNOWN = None          # installed by the runner: f(violation dict) -> bool
-NEW_BUDGET = 400
+NEW_BUDGET = 150
 
 
 class Acc(object):
